@@ -208,7 +208,7 @@ func (m *SMT) declareFun(name string, args []string, ret string) {
 
 // define introduces a named abbreviation.
 func (m *SMT) define(prefix string, t Term) Term {
-	if len(t.S) < 24 {
+	if !strings.HasPrefix(t.S, "(") || (len(t.S) < 24 && !strings.HasPrefix(t.S, "(ite")) {
 		return t
 	}
 	m.nfresh++
